@@ -18,6 +18,7 @@ package limited_rationality
 //@   ensures [fresh_rearrangement] fresh(result) && fresh(*result) && len(*result) == len(*alternatives)
 //@   ensures [members] forall k int :: 0 <= k && k < len(*result) ==> exists j int :: 0 <= j && j < len(*alternatives) && (*result)[k] == (*alternatives)[j]
 //@   ensures [none_twice] model.distinctAltIds(*alternatives) ==> model.distinctAltIds(*result)
+//@   ensures [random_order_is_the_seeded_shuffle] isRandomOrder ==> model.isShuffle(result, alternatives, generator, old(calls(generator)))
 //@   ensures [fixed_order] !isRandomOrder ==> forall k int :: 0 <= k && k < len(*alternatives) ==> (*result)[k] == (*alternatives)[k]
 //@   ensures [input_untouched] unchanged(*alternatives)
 
